@@ -29,10 +29,45 @@ def foreign_outlet_stage(ctx, V, exe, n):
     V.count("foreign-outlet-histories", len(scs))
 
 
+def odd_answer_stage(ctx, V, exe, n):
+    """(a) answers that are NOT a table entry but contain its letters in another case or inside a longer word (`on`, `Offline`, `nonsense`):
+    `a missing or unrecognised answer is shown unknown`;
+    (b) a device that answers a status request LATER than its time-out: the query fails (211, unknown), and the late answer must not be taken
+    for the answer to the NEXT query (the outlets changed state in between): `state is never cached between queries`."""
+    import random, pmgen
+    scs = []
+    for i in range(n):
+        rng = random.Random(ctx.seed * 67867967 + i)
+        cfg = pmgen.Config()
+        d0 = pmgen.Dev("d0", ["login", "status"] + (["status_all"] if rng.random() < 0.4 else []), hardwired=["p1", "p2"], transport=rng.choice(["pipe", "tcp"]), timeout=2.0)
+        cfg.devs.append(d0); cfg.node_lines.append(("n0,n1", "d0", "p1,p2")); cfg.truth = {"d0": {"p1": "n0", "p2": "n1"}}
+        S = [("connect",), ("wait", 0)]
+        sc = pmcheck.Scenario(cfg, S, dict(style="c03-odd" if i % 2 == 0 else "c03-late", ncli=1))
+        def ask(line, tg):
+            S.append(("send", 0, (line + "\r\n").encode())); S.append(("wait", 0))
+            sc.requests.append(dict(client=0, word="status", line=line, targets=tg))
+        if i % 2 == 0:
+            for _ in range(3):
+                S.append(("verdict", "d0", rng.choice(["p1", "p2"]), rng.choice(["on", "off", "Offline", "nonsense", "oFF", "conn", "On", "0n", "offON"[:3]])))
+                ask(*rng.choice([("status", ["n0", "n1"]), ("status n0", ["n0"]), ("status n[0-1]", ["n0", "n1"])]))
+        else:
+            first = "ON" if i % 4 == 1 else "OFF"
+            S.append(("devstate", "d0", first)); S.append(("devmode", "d0", "late"))
+            ask(*rng.choice([("status n0", ["n0"]), ("status", ["n0", "n1"])]))
+            S.append(("devstate", "d0", "OFF" if first == "ON" else "ON"))
+            ask(*rng.choice([("status n0", ["n0"]), ("status", ["n0", "n1"]), ("status n1", ["n1"])]))
+            ask("status", ["n0", "n1"])
+        scs.append(sc)
+    pmcheck.run_batch(ctx, V, exe, scs, ["alive", "c03", "protocol", "wedge"], "c03o")
+    V.count("odd-answer-histories", len(scs))
+
+
 def run(ctx, V):
     import C06, pmsim
     _run(ctx, V)
-    foreign_outlet_stage(ctx, V, pmsim.build(ctx), 30 if ctx.tier == "quick" else 600)
+    exe = pmsim.build(ctx)
+    foreign_outlet_stage(ctx, V, exe, 30 if ctx.tier == "quick" else 600)
+    odd_answer_stage(ctx, V, exe, 24 if ctx.tier == "quick" else 600)
 
 
 def _run(ctx, V):
